@@ -62,14 +62,21 @@ class UnitSpec:
                 self.label = v
             else:
                 raise WeaveError('unknown //@unit option %r' % p)
+        self.explicit_label = self.label is not None
         if self.label is None:
-            self.label = self.name if self.impl is None else '%s::%s' % (_impl_short(self.impl), self.name)
+            self.label = self.name
         self.key = '%s|%s|%s|%s|%d' % (self.file, self.kind, self.name, self.impl or '', self.nth)
 
 
-def _impl_short(impl):
-    m = re.findall(r'[A-Z][A-Za-z0-9_]*', impl)
-    return m[-1] if m else impl
+def _impl_short(header):
+    """self type of an impl header: `impl<T>Vocab<T>where..` -> Vocab ; `impl Tokenize for BPETokenizer` -> BPETokenizer"""
+    h = header.split('where')[0]
+    if ' for ' in h or '>for ' in h:
+        h = re.split(r'\bfor ', h)[-1]
+    else:
+        h = re.sub(r'^impl(<[^>]*>)?\s*', '', h)
+    m = re.match(r'[A-Za-z_][A-Za-z0-9_]*', h.strip())
+    return m.group(0) if m else header
 
 
 def _split_args(line):
@@ -479,6 +486,8 @@ def extract_and_normalise(spec, repo=None):
     except lexer.ExtractError as e:
         raise WeaveError('unit %s: %s' % (spec.label, e))
     raw = ex['text']
+    if ex.get('impl_header') and not spec.explicit_label:
+        spec.label = '%s::%s' % (_impl_short(ex['impl_header']), spec.name)
     text, applied = rules_mod.apply_rules(raw, ['R0'] + spec.rules)
     return raw, text, applied, ex
 
